@@ -4,8 +4,11 @@ import (
 	"fmt"
 	"regexp"
 	"strings"
+	gotime "time"
 
+	"github.com/jotaen/klog/klog"
 	"github.com/jotaen/klog/klog/parser"
+	"github.com/jotaen/klog/klog/service"
 )
 
 // C06: no file content can crash klog.
@@ -130,6 +133,9 @@ func runC06(env *Env, data map[string]any) *Outcome {
 			break
 		}
 	}
+	if valid {
+		c06Warnings(env, o, text, data)
+	}
 	if !boolv(data, "cmds") {
 		return o
 	}
@@ -168,4 +174,102 @@ func runC06(env *Env, data map[string]any) *Outcome {
 		}
 	}
 	return o
+}
+
+var warnNames = []string{"UNCLOSED_OPEN_RANGE", "FUTURE_ENTRIES", "OVERLAPPING_RANGES", "MORE_THAN_24H"}
+
+// implWarnings runs the real service.CheckForWarnings and renders the warnings as `date:NAME,…`.
+func implWarnings(rs []klog.Record, now gotime.Time, dis [4]bool) string {
+	var out []string
+	res := ""
+	msg := safely(func() {
+		d := service.NewDisabledCheckers()
+		for i, n := range warnNames {
+			d[n] = dis[i]
+		}
+		byMsg := map[string]string{"Unclosed open range": warnNames[0], "Entry in the future": warnNames[1], "Overlapping time ranges": warnNames[2], "Total time exceeds 24 hours": warnNames[3]}
+		service.CheckForWarnings(func(w service.Warning) {
+			n, ok := byMsg[w.Warning()]
+			if !ok {
+				n = "?" + w.Warning()
+			}
+			out = append(out, w.Date().ToString()+":"+n)
+		}, now, rs, d)
+		res = "ok " + strings.Join(out, ",")
+	})
+	if msg != "" {
+		return "panic"
+	}
+	return res
+}
+
+// c06Warnings: the warnings of a valid document at clock readings on and around its record dates
+// (correspondence with the model; a panic away from the ends of the calendar is a violation).
+func c06Warnings(env *Env, o *Outcome, text string, data map[string]any) {
+	rs, _, errs := parser.NewSerialParser().Parse(text)
+	if errs != nil || len(rs) == 0 {
+		return
+	}
+	small := len(rs) <= 12
+	for _, r := range rs {
+		if len(r.Entries()) > 12 {
+			small = false
+		}
+	}
+	h := 0
+	for i := 0; i < len(text); i++ {
+		h = (h*31 + int(text[i])) & 0xffffff
+	}
+	r := rs[h%len(rs)]
+	for k := 0; k < 3; k++ {
+		hh := (h >> 3 * (k + 1)) % 24
+		mm := (h >> 5 * (k + 1)) % 60
+		if k == 1 { // late evening: the grace period reaches into the next day
+			hh, mm = 23, 29+(h>>7)%31
+		}
+		y, m, d := r.Date().Year(), r.Date().Month(), r.Date().Day()
+		shift := []int{0, 1, -1, 2, -2, -3}[(h>>(2+k))%6]
+		now := gotime.Date(y, gotime.Month(m), d+shift, hh, mm, 0, 0, gotime.UTC)
+		if now.Year() < 0 || now.Year() > 9999 {
+			continue
+		}
+		var dis [4]bool
+		if k == 2 {
+			for i := range dis {
+				dis[i] = (h>>(9+i))&1 == 1
+			}
+		}
+		impl := implWarnings(rs, now, dis)
+		o.Evals++
+		atEnd := now.Year() == 0 && now.Month() == 1 && now.Day() <= 2 || now.Year() == 9999 && now.Month() == 12 && now.Day() >= 30
+		for _, x := range rs {
+			if x.Date().Year() == 0 && x.Date().Month() == 1 && x.Date().Day() == 1 || x.Date().Year() == 9999 && x.Date().Month() == 12 && x.Date().Day() == 31 {
+				atEnd = true
+			}
+		}
+		if impl == "panic" && !atEnd && !strings.Contains(text, "99999999") {
+			o.Findings = append(o.Findings, Finding{Kind: "D", What: fmt.Sprintf("CheckForWarnings panics (clock %s)", now.Format("2006-01-02 15:04")), Impl: "panic"})
+			return
+		}
+		if small {
+			bits := ""
+			for _, b := range dis {
+				if b {
+					bits += "1"
+				} else {
+					bits += "0"
+				}
+			}
+			model := env.Drv.Ask("warn", hx(text), fmt.Sprint(now.Year()), fmt.Sprint(int(now.Month())), fmt.Sprint(now.Day()), fmt.Sprint(hh), fmt.Sprint(mm), bits)
+			if model != impl {
+				o.Findings = append(o.Findings, Finding{Kind: "K", What: fmt.Sprintf("K.C06.warnings: CheckForWarnings differs from the model (clock %s, disabled %s)", now.Format("2006-01-02 15:04"), bits), Impl: short(impl, 1500), Model: short(model, 1500)})
+				return
+			}
+			if strings.Contains(impl, ":") {
+				o.Tags = append(o.Tags, "warnings:some")
+			} else {
+				o.Tags = append(o.Tags, "warnings:none")
+			}
+		}
+	}
 }
